@@ -2,6 +2,7 @@ package main
 
 import (
 	"fmt"
+	"sort"
 
 	"github.com/hyperledger/aries-framework-go/component/models/presexch"
 
@@ -139,6 +140,10 @@ func genRequirements(r *runner, rng *hx.Rng, thorough bool) {
 				for pat := 0; pat < 1<<n; pat++ {
 					if n == 4 && !thorough && rng.Intn(3) != 0 {
 						continue
+					}
+
+					if pat == 0 && rng.Intn(4) != 0 {
+						continue // nothing satisfiable: CreateVP fails, the property says nothing
 					}
 
 					if vi > 0 && !thorough && rng.Intn(2) != 0 {
@@ -525,7 +530,7 @@ func genRandom(r *runner, rng *hx.Rng, thorough bool) {
 
 		var creds []Cred
 
-		nc := g.Intn(6)
+		nc := 1 + g.Intn(6)
 		for i := 0; i < nc; i++ {
 			c := Cred{ID: i + 1, Issuer: 50 + g.Intn(2), Subject: 50 + g.Intn(3), Types: []int{1}}
 			if g.Intn(3) == 0 {
@@ -640,13 +645,19 @@ func genIterator(r *runner, rng *hx.Rng, thorough bool) {
 		budget = 9000
 	}
 
-	count := 0
+	type pending struct {
+		ic          iterCase
+		sig, detail string
+		weight      int
+	}
+
+	var all []pending
 
 	for _, rq := range reqs {
 		n := len(rq.descs)
 
 		for pat := 0; pat < 1<<n; pat++ {
-			if n >= 4 && !thorough && rng.Intn(1<<(n-2)) != 0 {
+			if n >= 4 && !thorough && rng.Intn(1<<(n-3)) != 0 {
 				continue
 			}
 
@@ -659,9 +670,35 @@ func genIterator(r *runner, rng *hx.Rng, thorough bool) {
 
 			multi := rng.Intn(4) == 0
 			ic, sig, detail := runIter(rq.q, rq.descs, sat, multi)
-			count++
-			emit("iterator", ic, sig, detail, count <= budget || sig != "")
+
+			// the exclusion arithmetic shows when a descriptor that is not the first of a solution is excluded and
+			// the iteration goes on: those cases go through Coq first
+			w := 0
+
+			for i, st := range ic.Steps {
+				if len(st.Ex) > 0 && i > 0 && len(ic.Steps[i-1].Out) > 1 && len(st.Out) > 0 {
+					w += 2
+				}
+
+				if len(st.Ex) > 1 {
+					w++
+				}
+			}
+
+			all = append(all, pending{ic, sig, detail, w})
 		}
+	}
+
+	// shuffle, then stable order by weight
+	for i := len(all) - 1; i > 0; i-- {
+		j := rng.Intn(i + 1)
+		all[i], all[j] = all[j], all[i]
+	}
+
+	sort.SliceStable(all, func(i, j int) bool { return all[i].weight > all[j].weight })
+
+	for i, pc := range all {
+		emit("iterator", pc.ic, pc.sig, pc.detail, i < budget || pc.sig != "")
 	}
 
 	// IsSatisfiedBy + makeRequirement on random definitions
